@@ -392,6 +392,8 @@ impl System for Sys {
 // A counter narrower than usize that the implementation keeps next to its queue (a seeded change
 // used a saturating u16 "number of waiters") is exact below its range and wrong above it.
 
+/// stack of the script thread
+pub const SCRIPT_STACK: usize = 256 * 1024;
 pub const SCRIPT_SIZES: [usize; 10] = [1, 2, 3, 255, 256, 257, 65535, 65536, 65537, 65538];
 
 #[derive(Clone, Copy, Debug, PartialEq)]
@@ -406,6 +408,41 @@ pub struct Script {
 }
 
 impl Script {
+    fn run_script(&self, idx: u8, out: &mut StepOut) {
+        let n = SCRIPT_SIZES[idx as usize];
+        let chain = self.cfg.flag("chain");
+        let inner_cfg = self.cfg.with("n", n as i64);
+        let variants = if chain { 1 } else { Sys::new(&inner_cfg).variants() };
+        for v in 0..variants {
+            let mut sys = Sys::new(&inner_cfg);
+            for _ in 0..n {
+                let mut o = StepOut::default();
+                sys.apply(Op::Register, &mut o);
+                if Self::take(o, out) {
+                    std::mem::forget(sys);
+                    return;
+                }
+            }
+            if chain {
+                Self::chain(&mut sys, out);
+            } else {
+                for op in [Op::Fire(v), Op::PollAll] {
+                    let mut o = StepOut::default();
+                    sys.apply(op, &mut o);
+                    if Self::take(o, out) {
+                        break;
+                    }
+                }
+            }
+            if !out.viol.is_empty() {
+                // a primitive that misbehaved is not torn down
+                std::mem::forget(sys);
+                return;
+            }
+        }
+        out.o(&format!("n={} ok", n));
+    }
+
     fn take(inner: StepOut, out: &mut StepOut) -> bool {
         let bad = !inner.viol.is_empty() || inner.corrupt;
         out.viol.extend(inner.viol);
@@ -510,40 +547,38 @@ impl System for Script {
     }
 
     fn apply(&mut self, op: ScriptOp, out: &mut StepOut) {
+        // The script runs on a thread of its own with a small stack: everything the harness and
+        // the unchanged library do here is iterative and needs a few kilobytes, whereas library
+        // code whose recursion depth grows with the number of parked futures overflows it. Rust
+        // turns a stack overflow into an abort of the whole process; the name of the thread, which
+        // the abort message contains, tells the driver what was running.
         let ScriptOp::Run(idx) = op;
         self.ran = Some(idx);
-        let n = SCRIPT_SIZES[idx as usize];
-        let chain = self.cfg.flag("chain");
-        let inner_cfg = self.cfg.with("n", n as i64);
-        let variants = if chain { 1 } else { Sys::new(&inner_cfg).variants() };
-        for v in 0..variants {
-            let mut sys = Sys::new(&inner_cfg);
-            for _ in 0..n {
-                let mut o = StepOut::default();
-                sys.apply(Op::Register, &mut o);
-                if Self::take(o, out) {
-                    std::mem::forget(sys);
-                    return;
-                }
-            }
-            if chain {
-                Self::chain(&mut sys, out);
-            } else {
-                for op in [Op::Fire(v), Op::PollAll] {
+        let prop = Sys::new(&self.cfg.with("n", 1)).prop;
+        let prop = if self.cfg.flag("chain") && (self.cfg.get("kind") == 2 || self.cfg.get("kind") == 3) { "C10" } else { prop };
+        // (the thread name is what Rust prints in "thread '...' has overflowed its stack")
+        let name = format!("script|{}|{}|{:?}|n={}", prop, self.cfg.label(), op, SCRIPT_SIZES[idx as usize]);
+        let this: &Script = self;
+        let res = std::thread::scope(|sc| {
+            std::thread::Builder::new()
+                .name(name)
+                .stack_size(SCRIPT_STACK)
+                .spawn_scoped(sc, || {
                     let mut o = StepOut::default();
-                    sys.apply(op, &mut o);
-                    if Self::take(o, out) {
-                        break;
-                    }
-                }
+                    this.run_script(idx, &mut o);
+                    o
+                })
+                .expect("spawn script thread")
+                .join()
+        });
+        match res {
+            Ok(o) => {
+                out.viol.extend(o.viol);
+                out.corrupt |= o.corrupt;
+                out.o(&o.obs);
             }
-            if !out.viol.is_empty() {
-                // a primitive that misbehaved is not torn down
-                std::mem::forget(sys);
-                return;
-            }
+            Err(_) => out.v("C01", "panic", "the script thread panicked outside a library call".to_string()),
         }
-        out.o(&format!("n={} ok", n));
     }
 
     fn fingerprint(&self) -> Vec<u8> {
